@@ -293,8 +293,67 @@ def run(ctx, report):
     renamed_copy_rule(M, R4, 'the control-flow attributes (breakflow / splitflow / dstflow) are those')
 
 
+    # ---------------------------------------------------------------- D6 destination of a direct branch, evaluated
+    R6 = report.rule('C17.D6', 'getdstflow evaluated from the source on immediates typed by intsize (sign-extended kind and plain kind) x operand size x offsets in both halves of the '
+                     'address range: the destination is offset + length + displacement reduced to the operand size, as a non-negative address', floor=20)
+    dst_eval_rule(ctx, R6, M)
+
+
+def dst_eval_rule(ctx, R, M):
+    from ..consteval import Evaluator, Obj, NotConst, PyRaise, class_obj
+    from .. import simpeval as SE
+    arch, afs, E = M.arch, M.afs, M.env
+    gdf = arch.method('x86_mn', 'getdstflow')
+    isz = arch.method('x86_mn', 'intsize')
+    scope = dict((k, v) for k, v in E.items() if isinstance(v, (str, int, bool, list, tuple, dict)) or v is None)
+    scope.update(SE.INT_CLASSES)
+    scope['x86_afs'] = afs
+    for fname_, fnode_ in arch.funcs.items():
+        scope.setdefault(fname_, fnode_)
+    # tables built from the integer classes (tab_max_uint ...) re-evaluated with the model classes
+    for st in arch.tree.body:
+        if isinstance(st, ast.Assign) and len(st.targets) == 1 and isinstance(st.targets[0], ast.Name) and any(isinstance(x, ast.Name) and x.id in SE.INT_CLASSES for x in ast.walk(st.value)):
+            try:
+                scope[st.targets[0].id] = Evaluator(scope).ev(st.value)
+            except NotConst:
+                pass
+    n = 0
+    for mode, bits in ((afs.u32, 32), (afs.u16, 16)):
+        for ext in (True, False):
+            for name in (('jmp',) if ext else ('jz', 'call')):
+                for offset in (0x10, 0x9000, 0x7FFFFFF0, 0x80001000, 0xFFFFFFF0):
+                    for disp, length in ((-2, 2), (0x10, 2), (-0x80, 2), (0x7F, 2), (-0x1000, 5), (0x12345, 5)):
+                        if bits == 16 and not -0x8000 <= disp < 0x8000:
+                            continue
+                        me = class_obj(arch, 'x86_mn', 'self')
+                        m_ = Obj('m')
+                        m_.name = name
+                        m_.modifs = dict((E[k_], None) for k_ in ('w8', 'se', 'sw', 'sd', 'wd', 'mmx') if k_ in E)
+                        me.m, me.opmode, me.admode, me.offset, me.l = m_, mode, afs.u32, offset, length
+                        try:
+                            imm = Evaluator(scope).call_user(isz, [me, disp, ext])
+                            me.arg = [{afs.imm: imm, afs.ad: False, afs.size: mode}]
+                            out = Evaluator(scope).call_user(gdf, [me])
+                        except PyRaise as e:
+                            R.violation('dst[%s]' % name, 'dst-eval:%s:raises:%s' % (name, e.exc_name), 'getdstflow of %s at %#x (%d-bit operand size, displacement %d) raises %s' % (name, offset, bits, disp, e.exc_name),
+                                        where(arch, gdf))
+                            continue
+                        except NotConst as e:
+                            raise AnalysisError('getdstflow / intsize are outside the evaluable subset: %s' % e)
+                        n += 1
+                        want = (offset + length + disp) % (1 << bits)
+                        inst = 'dst[%s,%d,%s]' % (name, bits, 'ims' if ext else 'rel')
+                        got = out[0] if isinstance(out, list) and len(out) == 1 else out
+                        if isinstance(got, int) and int(got) == want:
+                            R.ok(inst, sample='%s at %#x + %d, displacement %d, %d-bit: %#x' % (name, offset, length, disp, bits, want), nontrivial=(n % 7 == 0))
+                        else:
+                            R.violation(inst, 'dst-eval:%s:%d:%s' % (name, bits, 'ims' if ext else 'rel'), 'destination of %s at %#x (length %d, displacement %d, %d-bit operand size) is reported as %s; '
+                                        'the architectural target is %#x' % (name, offset, length, disp, bits, ('%#x' % int(got)) if isinstance(got, int) else repr(got), want), where(arch, gdf),
+                                        witness='66 eb fd at 0x9000')
+
 
 MUTANTS = [
+    ('intsize-ext-signed', 'miasmx/arch/ia32_arch.py', "            return [uint16, uint32][self.opmode == u32](im)", "            return [int16, int32][self.opmode == u32](im)", 'C17.D6'),
     ('iretw-copy-of-into', 'miasmx/arch/ia32_arch.py', "        pm = self.db_mnemo[0xcf]\n        self.iretw_m", "        pm = self.db_mnemo[0xce]\n        self.iretw_m", 'C17.D4'),
     ('dstflow-farcall-raises', 'miasmx/arch/ia32_arch.py', '        if self.m.name == "jmpf" or \\\n                (self.m.name == "call" and len(self.arg) == 2):', '        if self.m.name == "jmpf":', 'C17.D3'),
     ('hlt-noflow', 'miasmx/arch/ia32_arch.py',
